@@ -502,6 +502,7 @@ _verdict(bool(bad), thread_counts_with_a_different_result=sorted(bad), max_diffe
 
 def main():
     chk = Check(PID)
+    chk.default_replay = lambda: _replay_algebra('general confirmation')
     thorough = chk.tier == 'thorough'
     chk.bound(layout='pack/unpack: all k_i in [0,63] (QF_BV, complete); table enumeration exhaustive for degree <= %d' % (30 if thorough else 14),
               algebra='factor degrees <= 2 (products to degree %d), 5-6 symbolic coefficients per operand, real and complex, plus the dense 1x1 case; substitution degree <= 3 with 10 symbolic matrix entries' % (6 if thorough else 4),
